@@ -1,6 +1,6 @@
 use bytes::{Buf, Bytes};
 use std::future::poll_fn;
-use std::sync::atomic::{AtomicUsize, Ordering};
+use std::sync::atomic::{AtomicBool, AtomicUsize, Ordering};
 use std::sync::Mutex;
 use std::task::Waker;
 use std::{
@@ -361,6 +361,12 @@ impl WriteHalf {
             return Err(io::Error::new(io::ErrorKind::BrokenPipe, "Broken pipe"));
         }
 
+        // A stream that was reset never regains send credits: fail instead of
+        // reporting WouldBlock forever.
+        if self.flow_control.is_reset() {
+            return Err(io::Error::new(io::ErrorKind::BrokenPipe, "Broken pipe"));
+        }
+
         if !self.flow_control.try_acquire() {
             return Err(io::Error::new(
                 io::ErrorKind::WouldBlock,
@@ -384,7 +390,7 @@ impl WriteHalf {
                 "Broken pipe",
             )));
         }
-        if self.flow_control.has_credits() {
+        if self.flow_control.has_credits() || self.flow_control.is_reset() {
             return Poll::Ready(Ok(()));
         }
         self.flow_control.register_waker(cx.waker().clone());
@@ -504,6 +510,11 @@ impl BidiFlowControl {
             read: self.write,
         }
     }
+
+    /// The stream entry is gone: wake a writer parked on send credits.
+    pub(crate) fn reset_write(&self) {
+        self.write.reset();
+    }
 }
 
 /// End-to-end flow control for a single TCP stream direction.
@@ -514,6 +525,9 @@ impl BidiFlowControl {
 pub(crate) struct FlowControl {
     credits: AtomicUsize,
     waker: Mutex<Option<Waker>>,
+    /// The stream was torn down (RST received, or reset locally). No credit
+    /// will ever be released again, so a writer must not wait for one.
+    reset: AtomicBool,
 }
 
 impl FlowControl {
@@ -521,7 +535,20 @@ impl FlowControl {
         Self {
             credits: AtomicUsize::new(capacity),
             waker: Mutex::new(None),
+            reset: AtomicBool::new(false),
         }
+    }
+
+    /// Marks the direction as reset and wakes a writer parked on credits.
+    pub(crate) fn reset(&self) {
+        self.reset.store(true, Ordering::Release);
+        if let Some(waker) = self.waker.lock().unwrap().take() {
+            waker.wake();
+        }
+    }
+
+    fn is_reset(&self) -> bool {
+        self.reset.load(Ordering::Acquire)
     }
 
     fn try_acquire(&self) -> bool {
